@@ -330,14 +330,17 @@ theorem foldAndA_arr1 (l : List Expr) : foldAndA [.leaf (.arr1 true l)] = foldAn
 theorem countTrueA_items_arr1 (l : List Expr) : countTrueA [.items [.leaf (.arr1 true l)]] = countTrue l := by
   simp [countTrueA, ANest.flattenList, ANest.flatten, PyV.flat]
 
-theorem vert_closed {bid : List (List Int)}
+theorem vert_closed {β : Type} {bid : List (List Int)}
     (hbid : Rep pb.height pb.width bid (fun y x => ((regionIdx pb (y, x) : Nat) : Int))) (i : Nat)
-    {p : Nat × Nat} (hp : OnB pb p) :
+    {p : Nat × Nat} (hp : OnB pb p) (K : Bool → Py β) :
     (if 0 < (p.1 : Int) ∧ (p.1 : Int) < (pb.height : Int) - 1 then do
         let u ← tableGet bid ((p.1 : Int) - 1) (p.2 : Int)
         let d ← tableGet bid ((p.1 : Int) + 1) (p.2 : Int)
-        (.ok (u == (i : Int) && d == (i : Int)) : Py Bool)
-      else .ok false) = .ok (vertOK pb i p) := by
+        let vert ← (.ok (u == (i : Int) && d == (i : Int)) : Py Bool)
+        K vert
+      else do
+        let vert ← (.ok false : Py Bool)
+        K vert) = K (vertOK pb i p) := by
   unfold vertOK
   by_cases hv : 0 < p.1 ∧ p.1 + 1 < pb.height
   · rw [if_pos (by omega)]
@@ -346,19 +349,24 @@ theorem vert_closed {bid : List (List Int)}
     have h1 := tableGet_region hbid (q := (p.1 - 1, p.2)) ⟨by simp only; omega, hp.2⟩
     have h2 := tableGet_region hbid (q := (p.1 + 1, p.2)) ⟨by simp only; omega, hp.2⟩
     simp only at h1 h2
-    rw [e1, e2, h1, ok_bind, h2, ok_bind, natCast_beq, natCast_beq]
+    rw [e1, e2, h1, ok_bind, h2, ok_bind, natCast_beq, natCast_beq, ok_bind]
+    congr 1
     simp [hv]
-  · rw [if_neg (by omega)]
+  · rw [if_neg (by omega), ok_bind]
+    congr 1
     simp [hv]
 
-theorem horiz_closed {bid : List (List Int)}
+theorem horiz_closed {β : Type} {bid : List (List Int)}
     (hbid : Rep pb.height pb.width bid (fun y x => ((regionIdx pb (y, x) : Nat) : Int))) (i : Nat)
-    {p : Nat × Nat} (hp : OnB pb p) :
+    {p : Nat × Nat} (hp : OnB pb p) (K : Bool → Py β) :
     (if 0 < (p.2 : Int) ∧ (p.2 : Int) < (pb.width : Int) - 1 then do
         let l ← tableGet bid (p.1 : Int) ((p.2 : Int) - 1)
         let r ← tableGet bid (p.1 : Int) ((p.2 : Int) + 1)
-        (.ok (l == (i : Int) && r == (i : Int)) : Py Bool)
-      else .ok false) = .ok (horizOK pb i p) := by
+        let horiz ← (.ok (l == (i : Int) && r == (i : Int)) : Py Bool)
+        K horiz
+      else do
+        let horiz ← (.ok false : Py Bool)
+        K horiz) = K (horizOK pb i p) := by
   unfold horizOK
   by_cases hv : 0 < p.2 ∧ p.2 + 1 < pb.width
   · rw [if_pos (by omega)]
@@ -367,9 +375,11 @@ theorem horiz_closed {bid : List (List Int)}
     have h1 := tableGet_region hbid (q := (p.1, p.2 - 1)) ⟨hp.1, by simp only; omega⟩
     have h2 := tableGet_region hbid (q := (p.1, p.2 + 1)) ⟨hp.1, by simp only; omega⟩
     simp only at h1 h2
-    rw [e1, e2, h1, ok_bind, h2, ok_bind, natCast_beq, natCast_beq]
+    rw [e1, e2, h1, ok_bind, h2, ok_bind, natCast_beq, natCast_beq, ok_bind]
+    congr 1
     simp [hv]
-  · rw [if_neg (by omega)]
+  · rw [if_neg (by omega), ok_bind]
+    congr 1
     simp [hv]
 
 theorem vslice_closed {p : Nat × Nat} (hp : OnB pb p) (hv : 0 < p.1 ∧ p.1 + 1 < pb.height) :
@@ -398,12 +408,15 @@ theorem hslice_closed {p : Nat × Nat} (hp : OnB pb p) (hv : 0 < p.2 ∧ p.2 + 1
   have e' : p.2 - 1 + 2 = p.2 + 1 := by omega
   simp [List.range_succ, cv, e, e']
 
-theorem t1_closed (i : Nat) {p : Nat × Nat} (hp : OnB pb p) :
-    (if vertOK pb i p then do
+theorem t1_closed {β : Type} (i : Nat) {p : Nat × Nat} (hp : OnB pb p) (K : List ANest → Py β) :
+    (if vertOK pb i p = true then do
         let s ← getitemV (IB pb) (.pair (sl (some ((p.1 : Int) - 1)) (some ((p.1 : Int) + 2))) (.idx (p.2 : Int)))
         let e ← foldAndA [.leaf s]
-        (.ok [ANest.leaf (.scalar e)] : Py (List ANest))
-      else .ok []) = .ok (if vertOK pb i p then [ANest.leaf (.scalar (vE pb.width p))] else []) := by
+        let t1 ← (.ok [ANest.leaf (.scalar e)] : Py (List ANest))
+        K t1
+      else do
+        let t1 ← (.ok [] : Py (List ANest))
+        K t1) = K (if vertOK pb i p then [ANest.leaf (.scalar (vE pb.width p))] else []) := by
   by_cases hv : vertOK pb i p = true
   · rw [if_pos hv, if_pos hv]
     have hv' : 0 < p.1 ∧ p.1 + 1 < pb.height := by
@@ -411,14 +424,17 @@ theorem t1_closed (i : Nat) {p : Nat × Nat} (hp : OnB pb p) :
       exact hv.1
     rw [vslice_closed hp hv', ok_bind, foldAndA_arr1]
     rfl
-  · rw [if_neg hv, if_neg hv]
+  · rw [if_neg hv, if_neg hv]; rfl
 
-theorem t2_closed (i : Nat) {p : Nat × Nat} (hp : OnB pb p) :
-    (if horizOK pb i p then do
+theorem t2_closed {β : Type} (i : Nat) {p : Nat × Nat} (hp : OnB pb p) (K : List ANest → Py β) :
+    (if horizOK pb i p = true then do
         let s ← getitemV (IB pb) (.pair (.idx (p.1 : Int)) (sl (some ((p.2 : Int) - 1)) (some ((p.2 : Int) + 2))))
         let e ← foldAndA [.leaf s]
-        (.ok [ANest.leaf (.scalar e)] : Py (List ANest))
-      else .ok []) = .ok (if horizOK pb i p then [ANest.leaf (.scalar (hE pb.width p))] else []) := by
+        let t2 ← (.ok [ANest.leaf (.scalar e)] : Py (List ANest))
+        K t2
+      else do
+        let t2 ← (.ok [] : Py (List ANest))
+        K t2) = K (if horizOK pb i p then [ANest.leaf (.scalar (hE pb.width p))] else []) := by
   by_cases hv : horizOK pb i p = true
   · rw [if_pos hv, if_pos hv]
     have hv' : 0 < p.2 ∧ p.2 + 1 < pb.width := by
@@ -426,17 +442,38 @@ theorem t2_closed (i : Nat) {p : Nat × Nat} (hp : OnB pb p) :
       exact hv.1
     rw [hslice_closed hp hv', ok_bind, foldAndA_arr1]
     rfl
-  · rw [if_neg hv, if_neg hv]
+  · rw [if_neg hv, if_neg hv]; rfl
 
-theorem straight_closed (i : Nat) (p : Nat × Nat) :
+theorem straight_closed {β : Type} (i : Nat) (p : Nat × Nat) (K : List Expr → Py β) :
     (if ((if vertOK pb i p then [ANest.leaf (.scalar (vE pb.width p))] else []) ++
           (if horizOK pb i p then [ANest.leaf (.scalar (hE pb.width p))] else [])).length ≥ 1 then do
         let e ← foldOrA [.items ((if vertOK pb i p then [ANest.leaf (.scalar (vE pb.width p))] else []) ++
           (if horizOK pb i p then [ANest.leaf (.scalar (hE pb.width p))] else []))]
-        (.ok [e] : Py (List Expr))
-      else .ok []) = .ok (straightE pb i p) := by
+        let straight ← (.ok [e] : Py (List Expr))
+        K straight
+      else do
+        let straight ← (.ok [] : Py (List Expr))
+        K straight) = K (straightE pb i p) := by
   unfold straightE tmpE
   cases vertOK pb i p <;> cases horizOK pb i p <;> rfl
+
+theorem ts_closed {β : Type} (i : Nat) (p : Nat × Nat) (K : List Expr → Py β) :
+    (if (sameN pb i p).length ≥ 3 then do
+        let ct ← countTrueA [.items [.leaf (.arr1 true ((sameN pb i p).map (cv pb.width)))]]
+        let e ← binop .ge (.scalar ct) (.scalar (.litI 3))
+        let ts ← (.ok e.flat : Py (List Expr))
+        K ts
+      else do
+        let ts ← (.ok [] : Py (List Expr))
+        K ts) = K (tsE pb i p) := by
+  unfold tsE
+  by_cases h3 : 3 ≤ (sameN pb i p).length
+  · rw [if_pos h3, if_pos h3, countTrueA_items_arr1, countTrue_ok_of_boolLike (cv_isBoolLike _ _), ok_bind]
+    obtain ⟨op', args', hE', hop'⟩ := C11CL.countTrueE_isNode ((sameN pb i p).map (cv pb.width))
+    rw [hE', binop_ge_node_lit _ _ _ hop']
+    rfl
+  · rw [if_neg h3, if_neg h3]
+    rfl
 
 theorem cellRest_closed {bid : List (List Int)}
     (hbid : Rep pb.height pb.width bid (fun y x => ((regionIdx pb (y, x) : Nat) : Int))) (i : Nat)
@@ -453,17 +490,10 @@ theorem cellRest_closed {bid : List (List Int)}
     unfold nbrE
     rw [hE]
     exact C11CL.callM_then_bvar _ _ _ hop
-  rw [hthen, ok_bind, C11CL.ensureV_scalar _ rfl, ok_bind, vert_closed hbid i hp, ok_bind, t1_closed i hp, ok_bind,
-    horiz_closed hbid i hp, ok_bind, t2_closed i hp, ok_bind, straight_closed i p, ok_bind]
+  rw [hthen, ok_bind, C11CL.ensureV_scalar _ rfl, ok_bind, vert_closed hbid i hp, t1_closed i hp,
+    horiz_closed hbid i hp, t2_closed i hp, straight_closed i p]
   simp only [List.length_map]
-  unfold tsE
-  by_cases h3 : 3 ≤ (sameN pb i p).length
-  · rw [if_pos h3, if_pos h3, countTrueA_items_arr1, countTrue_ok_of_boolLike (cv_isBoolLike _ _), ok_bind]
-    obtain ⟨op', args', hE', hop'⟩ := C11CL.countTrueE_isNode ((sameN pb i p).map (cv pb.width))
-    rw [hE', binop_ge_node_lit _ _ _ hop']
-    rfl
-  · rw [if_neg h3, if_neg h3]
-    rfl
+  rw [ts_closed i p]
 
 theorem cellBody_closed {bid : List (List Int)}
     (hbid : Rep pb.height pb.width bid (fun y x => ((regionIdx pb (y, x) : Nat) : Int))) (i : Nat)
@@ -476,5 +506,207 @@ theorem cellBody_closed {bid : List (List Int)}
   exact cellRest_closed hbid i hp _
 
 end
+
+/-! ### the constraints of one region -/
+
+/-- First auxiliary id: after the cells and the `2n` rank/root variables of the connectivity encoding. -/
+def base (pb : Problem) : Nat := pb.height * pb.width + 2 * (pb.height * pb.width)
+
+/-- `num_straight[i]`, `has_t[i]`. -/
+def nsV (pb : Problem) (i : Nat) : Expr := .ivar (base pb + i)
+def htV (pb : Problem) (i : Nat) : Expr := .bvar (base pb + pb.blocks.length + i)
+
+def cntE (pb : Problem) (b : List (Nat × Nat)) : Expr := .node .eq [countTrueE (b.map (cv pb.width)), .litI 4]
+def pairCntE (pb : Problem) (i : Nat) (b : List (Nat × Nat)) : Expr :=
+  .node .eq [countTrueE (b.flatMap (pairsE pb i)), .litI 3]
+def nsE (pb : Problem) (i : Nat) (b : List (Nat × Nat)) : Expr :=
+  .node .eq [nsV pb i, countTrueE (b.flatMap (straightE pb i))]
+def htE (pb : Problem) (i : Nat) (b : List (Nat × Nat)) : Expr :=
+  .node .iff [htV pb i, orE (b.flatMap (tsE pb i))]
+
+/-- The constraints posted for region `i` with cells `b`. -/
+def blockCsN (pb : Problem) (i : Nat) (b : List (Nat × Nat)) : List Expr :=
+  [cntE pb b] ++ b.map (nbrE pb i) ++ [pairCntE pb i b] ++ [nsE pb i b] ++ [htE pb i b]
+
+theorem pyIndex_ivars (b k i : Nat) (hi : i < k) : pyIndex (ivars b k) (i : Int) = .ok (.ivar (b + i)) :=
+  C11Aquarium.pyIndex_of_getElem? _ _ _ (by simp [ivars, hi])
+
+theorem pyIndex_bvars (b k i : Nat) (hi : i < k) : pyIndex (bvars b k) (i : Int) = .ok (.bvar (b + i)) :=
+  C11Aquarium.pyIndex_of_getElem? _ _ _ (by simp [bvars, hi])
+
+theorem countTrueA_items (l : List Expr) :
+    countTrueA [.items (l.map fun e => ANest.leaf (.scalar e))] = countTrue l := by
+  simp [countTrueA, ANest.flattenList, ANest.flatten, flattenList_leaves]
+
+theorem foldOrA_items (l : List Expr) :
+    foldOrA [.items (l.map fun e => ANest.leaf (.scalar e))] = foldOr l := by
+  simp [foldOrA, ANest.flattenList, ANest.flatten, flattenList_leaves]
+
+theorem pairsE_boolLike (pb : Problem) (i : Nat) (b : List (Nat × Nat)) :
+    ∀ x ∈ b.flatMap (pairsE pb i), x.isBoolLike = true := by
+  intro x hx
+  simp only [List.mem_flatMap, pairsE, List.mem_map] at hx
+  obtain ⟨_, _, _, _, rfl⟩ := hx; rfl
+
+theorem straightE_boolLike (pb : Problem) (i : Nat) (b : List (Nat × Nat)) :
+    ∀ x ∈ b.flatMap (straightE pb i), x.isBoolLike = true := by
+  intro x hx
+  simp only [List.mem_flatMap, straightE] at hx
+  obtain ⟨p, _, hx⟩ := hx
+  split at hx
+  · simp at hx
+  · simp at hx; subst hx; rfl
+
+theorem tsE_boolExpr (pb : Problem) (i : Nat) (b : List (Nat × Nat)) :
+    ∀ x ∈ b.flatMap (tsE pb i), x.isBoolExpr = true := by
+  intro x hx
+  simp only [List.mem_flatMap, tsE] at hx
+  obtain ⟨p, _, hx⟩ := hx
+  split at hx
+  · simp at hx; subst hx; rfl
+  · simp at hx
+
+theorem flatMap_singleton_map {α β : Type} (f : α → β) : ∀ l : List α, l.flatMap (fun a => [f a]) = l.map f
+  | [] => rfl
+  | a :: r => by simp [List.flatMap_cons, flatMap_singleton_map f r]
+
+theorem blockCs_closed {pb : Problem} {bid : List (List Int)}
+    (hbid : Rep pb.height pb.width bid (fun y x => ((regionIdx pb (y, x) : Nat) : Int))) {i : Nat}
+    (hi : i < pb.blocks.length) {b : List (Nat × Nat)} (hb : ∀ p ∈ b, OnB pb p) :
+    blockCs pb (IB pb) bid (ivars (base pb) pb.blocks.length)
+        (bvars (base pb + pb.blocks.length) pb.blocks.length) (b.map castC, i)
+      = .ok (blockCsN pb i b) := by
+  unfold blockCs
+  simp only
+  rw [getCoordsV hb, ok_bind, C11CL.countTrueA_arr1 _ (cv_isBoolLike _ _), ok_bind]
+  obtain ⟨op0, a0, hE0, hop0⟩ := C11CL.countTrueE_isNode (b.map (cv pb.width))
+  rw [hE0, C11CL.binop_eq_node_lit _ _ _ hop0, ok_bind, C11CL.ensureV_scalar _ rfl, ok_bind, ← hE0]
+  rw [mapM_eq_ok_map (g := fun c => cellOutN pb i (natC c)) (by
+    intro c hc
+    simp only [List.mem_map] at hc
+    obtain ⟨p, hp, rfl⟩ := hc
+    rw [natC_castC]
+    exact cellBody_closed hbid i (hb p hp)), ok_bind]
+  have houts : (b.map castC).map (fun c => cellOutN pb i (natC c)) = b.map (cellOutN pb i) := by
+    rw [List.map_map]; apply List.map_congr_left; intro p _; simp
+  rw [houts]
+  have hpairs : (b.map (cellOutN pb i)).flatMap (·.pairs) = b.flatMap (pairsE pb i) := by
+    rw [List.flatMap_map]; rfl
+  have hstr : (b.map (cellOutN pb i)).flatMap (·.straight) = b.flatMap (straightE pb i) := by
+    rw [List.flatMap_map]; rfl
+  have hts : (b.map (cellOutN pb i)).flatMap (·.ts) = b.flatMap (tsE pb i) := by
+    rw [List.flatMap_map]; rfl
+  have hcs : (b.map (cellOutN pb i)).flatMap (·.cs) = b.map (nbrE pb i) := by
+    rw [List.flatMap_map]
+    exact flatMap_singleton_map _ b
+  rw [hpairs, hstr, hts, hcs]
+  rw [countTrueA_items, countTrue_ok_of_boolLike (pairsE_boolLike pb i b), ok_bind]
+  obtain ⟨op1, a1, hE1, hop1⟩ := C11CL.countTrueE_isNode (b.flatMap (pairsE pb i))
+  rw [hE1, C11CL.binop_eq_node_lit _ _ _ hop1, ok_bind, C11CL.ensureV_scalar _ rfl, ok_bind, ← hE1]
+  rw [pyIndex_ivars _ _ _ hi, ok_bind, countTrueA_items,
+    countTrue_ok_of_boolLike (straightE_boolLike pb i b), ok_bind]
+  obtain ⟨op2, a2, hE2, hop2⟩ := C11CL.countTrueE_isNode (b.flatMap (straightE pb i))
+  rw [hE2, binop_eq_ivar_node _ _ _ hop2, ok_bind, C11CL.ensureV_scalar _ rfl, ok_bind, ← hE2]
+  rw [pyIndex_bvars _ _ _ hi, ok_bind, foldOrA_items, foldOr_boolExprs _ (tsE_boolExpr pb i b), ok_bind]
+  obtain ⟨op3, a3, hE3, hop3⟩ := orE_isNode (b.flatMap (tsE pb i))
+  rw [hE3, binop_eq_bvar_node _ _ _ hop3, ok_bind, C11CL.ensureV_scalar _ rfl, ok_bind, ← hE3]
+  rfl
+
+/-! ### the border constraints -/
+
+/-- `(is_black[p] & is_black[q]).then((num_straight[i] != num_straight[j]) | (has_t[i] != has_t[j]))`. -/
+def borderE (pb : Problem) (p q : Nat × Nat) (i j : Nat) : Expr :=
+  .node .imp [.node .and [cv pb.width p, cv pb.width q],
+    .node .or [.node .ne [nsV pb i, nsV pb j], .node .xor [htV pb i, htV pb j]]]
+
+theorem borderC_closed {pb : Problem} {p q : Nat × Nat} (hp : OnB pb p) (hq : OnB pb q) {i j : Nat}
+    (hi : i < pb.blocks.length) (hj : j < pb.blocks.length) :
+    borderC (IB pb) (ivars (base pb) pb.blocks.length) (bvars (base pb + pb.blocks.length) pb.blocks.length)
+        ((p.1 : Int), (p.2 : Int)) ((q.1 : Int), (q.2 : Int)) (i : Int) (j : Int)
+      = .ok [borderE pb p q i j] := by
+  unfold borderC
+  simp only
+  rw [getCellV hp, ok_bind, getCellV hq, ok_bind, pyIndex_ivars _ _ _ hi, pyIndex_ivars _ _ _ hj,
+    pyIndex_bvars _ _ _ hi, pyIndex_bvars _ _ _ hj]
+  rfl
+
+/-- The constraint for the cell below / to the right of `p` when it lies in another region. -/
+def downE (pb : Problem) (p : Nat × Nat) : List Expr :=
+  if p.1 + 1 < pb.height ∧ regionIdx pb p ≠ regionIdx pb (p.1 + 1, p.2) then
+    [borderE pb p (p.1 + 1, p.2) (regionIdx pb p) (regionIdx pb (p.1 + 1, p.2))] else []
+
+def rightE (pb : Problem) (p : Nat × Nat) : List Expr :=
+  if p.2 + 1 < pb.width ∧ regionIdx pb p ≠ regionIdx pb (p.1, p.2 + 1) then
+    [borderE pb p (p.1, p.2 + 1) (regionIdx pb p) (regionIdx pb (p.1, p.2 + 1))] else []
+
+theorem natCast_bne (a b : Nat) : (((a : Nat) : Int) != ((b : Nat) : Int)) = (a != b) := by
+  simp [bne, natCast_beq]
+
+theorem adjCs_closed {pb : Problem} (hwf : WellFormed pb) {bid : List (List Int)}
+    (hbid : Rep pb.height pb.width bid (fun y x => ((regionIdx pb (y, x) : Nat) : Int)))
+    {p : Nat × Nat} (hp : OnB pb p) :
+    adjCs pb (IB pb) bid (ivars (base pb) pb.blocks.length)
+        (bvars (base pb + pb.blocks.length) pb.blocks.length) p
+      = .ok (downE pb p ++ rightE pb p) := by
+  have hri := regionIdx_lt hwf hp
+  have hd : (if (p.1 : Int) < (pb.height : Int) - 1 then do
+        let i ← tableGet bid (p.1 : Int) (p.2 : Int)
+        let j ← tableGet bid ((p.1 : Int) + 1) (p.2 : Int)
+        if i != j then borderC (IB pb) (ivars (base pb) pb.blocks.length)
+          (bvars (base pb + pb.blocks.length) pb.blocks.length) ((p.1 : Int), (p.2 : Int))
+          ((p.1 : Int) + 1, (p.2 : Int)) i j else .ok []
+      else .ok []) = .ok (downE pb p) := by
+    unfold downE
+    by_cases h1 : p.1 + 1 < pb.height
+    · have hq : OnB pb (p.1 + 1, p.2) := ⟨h1, hp.2⟩
+      have e2 : ((p.1 : Int) + 1) = ((p.1 + 1 : Nat) : Int) := by omega
+      have h2 := tableGet_region hbid hq
+      simp only at h2
+      rw [if_pos (by omega), tableGet_region hbid hp, ok_bind, e2, h2, ok_bind, natCast_bne]
+      by_cases hne : regionIdx pb p = regionIdx pb (p.1 + 1, p.2)
+      · rw [if_neg (by simp [hne]), if_neg (by simp [hne])]
+      · rw [if_pos (by simpa using hne), if_pos ⟨h1, hne⟩]
+        exact borderC_closed hp hq hri (regionIdx_lt hwf hq)
+    · rw [if_neg (by omega), if_neg (by simp [h1])]
+  have hr : (if (p.2 : Int) < (pb.width : Int) - 1 then do
+        let i ← tableGet bid (p.1 : Int) (p.2 : Int)
+        let j ← tableGet bid (p.1 : Int) ((p.2 : Int) + 1)
+        if i != j then borderC (IB pb) (ivars (base pb) pb.blocks.length)
+          (bvars (base pb + pb.blocks.length) pb.blocks.length) ((p.1 : Int), (p.2 : Int))
+          ((p.1 : Int), (p.2 : Int) + 1) i j else .ok []
+      else .ok []) = .ok (rightE pb p) := by
+    unfold rightE
+    by_cases h1 : p.2 + 1 < pb.width
+    · have hq : OnB pb (p.1, p.2 + 1) := ⟨hp.1, h1⟩
+      have e2 : ((p.2 : Int) + 1) = ((p.2 + 1 : Nat) : Int) := by omega
+      have h2 := tableGet_region hbid hq
+      simp only at h2
+      rw [if_pos (by omega), tableGet_region hbid hp, ok_bind, e2, h2, ok_bind, natCast_bne]
+      by_cases hne : regionIdx pb p = regionIdx pb (p.1, p.2 + 1)
+      · rw [if_neg (by simp [hne]), if_neg (by simp [hne])]
+      · rw [if_pos (by simpa using hne), if_pos ⟨h1, hne⟩]
+        exact borderC_closed hp hq hri (regionIdx_lt hwf hq)
+    · rw [if_neg (by omega), if_neg (by simp [h1])]
+  have : adjCs pb (IB pb) bid (ivars (base pb) pb.blocks.length)
+        (bvars (base pb + pb.blocks.length) pb.blocks.length) p = (do
+      let c1 ← (if (p.1 : Int) < (pb.height : Int) - 1 then do
+        let i ← tableGet bid (p.1 : Int) (p.2 : Int)
+        let j ← tableGet bid ((p.1 : Int) + 1) (p.2 : Int)
+        if i != j then borderC (IB pb) (ivars (base pb) pb.blocks.length)
+          (bvars (base pb + pb.blocks.length) pb.blocks.length) ((p.1 : Int), (p.2 : Int))
+          ((p.1 : Int) + 1, (p.2 : Int)) i j else .ok []
+      else .ok [])
+      let c2 ← (if (p.2 : Int) < (pb.width : Int) - 1 then do
+        let i ← tableGet bid (p.1 : Int) (p.2 : Int)
+        let j ← tableGet bid (p.1 : Int) ((p.2 : Int) + 1)
+        if i != j then borderC (IB pb) (ivars (base pb) pb.blocks.length)
+          (bvars (base pb + pb.blocks.length) pb.blocks.length) ((p.1 : Int), (p.2 : Int))
+          ((p.1 : Int), (p.2 : Int) + 1) i j else .ok []
+      else .ok [])
+      .ok (c1 ++ c2)) := by
+    unfold adjCs
+    simp only
+    split <;> [split; skip] <;> split <;> (try split) <;> simp [bind, Except.bind]
+  rw [this, hd, ok_bind, hr, ok_bind]
 
 end Cspuz.Proofs.C11LitsP
